@@ -9,7 +9,7 @@ import z3
 
 from symx import core
 from symx.check import Raised
-from symx.core import SymReal, rv, term, zabs
+from symx.core import approx, SymReal, rv, term, zabs
 
 from .common import get_db, mag_of, qmap, slope_of
 
@@ -143,6 +143,9 @@ def run(cfg, V):
     info = U[cfg["u"]]
     zero = 0.0 if not core.is_sym(x) else SymReal(z3.RealVal(0))
     o = {"named": info.tobase(x), "named0": info.tobase(zero)}
+    base_u = db.GetUnits(info.quantity_type)[0]
+    # the row's factor as the public conversion applies it to container values
+    o["named_cont"] = [db.Convert(info.quantity_type, cfg["u"], base_u, [x])[0], db.Convert(info.quantity_type, cfg["u"], base_u, (x,))[0]]
     if cfg["k"] == "compound" and cfg.get("ops"):
         comps = cfg["comps"]
         # the same amount built by the REAL operators from Scalars in the component units
@@ -161,6 +164,7 @@ def run(cfg, V):
         if den is not None:
             acc = acc / den
         o["built"] = (acc.GetValue(), qmap(acc))
+        o["built_unit"] = acc.GetUnit()
         if all(getattr(U[c].tobase, "__a__", 0.0) == 0.0 for c, _e in comps):
             # the same construction with every component replaced by the base unit of its quantity type; the quotient must be the pure number x*K
             bnum, bden = None, None
@@ -226,6 +230,20 @@ def props(cfg, T, obs):
     K = z3.simplify(K)
     tol = rv(_tol(cfg, U))
     P = [("factor to base = product of the components' factors, to the precision the table is written in", zabs(named - x * K) <= tol * zabs(x * K))]
+    P.append(("the row's factor is applied alike to a float, a list and a tuple", z3.And(*[approx(c, obs["named"]) for c in obs["named_cont"]])))
+    if "built_unit" in obs and int(cfg["mult"][0]) == int(cfg["mult"][1]) == 1:
+        want = {}
+        for c, e in cfg["comps"]:
+            want[c] = want.get(c, 0) + e
+        want = sorted((c, e) for c, e in want.items() if e != 0)
+        got = parse(obs["built_unit"], U)
+        qts_ = [U[c].quantity_type for c, _e in want]
+        if (len(want) > 1 or (want and want[0][1] != 1)) and len(set(qts_)) == len(qts_):  # (components of one quantity type are matched to one unit by the operators)
+            gotd = {}
+            for c, e in (got[1] if got else []):
+                gotd[c] = gotd.get(c, 0) + e
+            P.append(("the unit string of the built Scalar names the same components with the same exponents as the row",
+                      got is not None and got[0] == 1 and sorted((c, e) for c, e in gotd.items() if e != 0) == want))
     if "built" in obs:
         bv, bq = obs["built"]
         # base magnitude of the value built by the real operators from the components (x in the first component, 1 elsewhere)
@@ -246,4 +264,6 @@ def props(cfg, T, obs):
 
 
 def finding_key(cfg, name):
+    if "u" in cfg and (name.startswith("the unit string of the built") or name.startswith("the row's factor is applied alike")):
+        return "table row %s :: %s" % (cfg["u"], name)
     return "table row %s disagrees with the product of its components" % cfg["u"] if "u" in cfg else "%s :: %s" % (cfg["k"], name)
